@@ -335,6 +335,129 @@ func init() {
 		} else {
 			c.violation("HARNESS", "env: "+err.Error(), nil)
 		}
+		// ---- correspondence with the Lean store-with-lifetimes model (Model/Ttl, Props/C09Ttl): random histories of logins, re-saves
+		// under the presented ticket (what a refresh does), requests, sign-outs and passing time, for several browsers; after every
+		// step, for every ticket seen so far: what a request presenting it loads, and the TTL Redis reports
+		for _, expire := range []time.Duration{time.Hour, -1, 90 * time.Second} {
+			e, err := newEnv(c, proxyCfg{Redis: true, CookieExpire: expire, InjectRequest: defaultInject()})
+			if err != nil {
+				c.violation("HARNESS", "env (ttl histories): "+err.Error(), nil)
+				continue
+			}
+			exp := int(e.opts.Cookie.Expire / time.Second)
+			r := c.rng.fork()
+			for h := 0; h < 6*c.scale; h++ {
+				e.mr.FlushAll()
+				type tk struct {
+					num    int
+					cookie string // the ticket cookie as last issued
+					key    string
+				}
+				var tickets []*tk
+				byKey := map[string]*tk{}
+				browsers := []*browser{newBrowser(), newBrowser(), newBrowser()}
+				var hops []string
+				resaves := 0
+				atNum := func(at string) int {
+					n := 0
+					fmt.Sscanf(strings.TrimPrefix(at, "at-"), "%d", &n)
+					return n
+				}
+				note := func(b *browser) *tk {
+					v, ok := b.jar[e.opts.Cookie.Name]
+					if !ok {
+						return nil
+					}
+					key := ticketIDOf(v)
+					t := byKey[key]
+					if t == nil {
+						t = &tk{num: len(tickets) + 1, key: key}
+						tickets, byKey[key] = append(tickets, t), t
+					}
+					t.cookie = e.opts.Cookie.Name + "=" + v
+					return t
+				}
+				steps := 8 + r.intn(10)
+				for st := 0; st < steps; st++ {
+					b := browsers[r.intn(len(browsers))]
+					cur := note(b)
+					switch k := r.intn(10); {
+					case cur == nil || k == 0: // login (a browser still holding a validly signed ticket cookie re-uses its ticket)
+						if lr := e.login(b, u, "/x"); !lr.OK {
+							c.violation("HARNESS", "ttl histories: login failed", nil)
+							continue
+						}
+						t := note(b)
+						ss, lerr := e.proxy.sessionStore.Load(mustReq(e, t.cookie))
+						if lerr != nil || ss == nil {
+							c.violation("HARNESS", "ttl histories: fresh login does not load", nil)
+							continue
+						}
+						hops = append(hops, fmt.Sprintf("S:%d:%d", t.num, atNum(ss.AccessToken)))
+					case k <= 2: // re-save under the presented ticket (a refresh)
+						ss, lerr := e.proxy.sessionStore.Load(mustReq(e, cur.cookie))
+						if lerr != nil || ss == nil {
+							hops = append(hops, fmt.Sprintf("L:%d", cur.num)) // (nothing loads: nothing to refresh)
+							break
+						}
+						resaves++
+						ss.AccessToken = fmt.Sprintf("at-%d", 100000+resaves)
+						ss.CreatedAtNow()
+						rw := &respRecorder{h: http.Header{}}
+						if serr := e.proxy.sessionStore.Save(rw, mustReq(e, cur.cookie), ss); serr != nil {
+							c.violation("HARNESS", "ttl histories: re-save failed: "+serr.Error(), nil)
+							continue
+						}
+						b.apply(&http.Response{Header: rw.h})
+						note(b)
+						hops = append(hops, fmt.Sprintf("S:%d:%d", cur.num, 100000+resaves))
+					case k == 3: // sign-out
+						v := e.do(reqSpec{Target: e.opts.ProxyPrefix + "/sign_out", Cookie: b.cookieHeader()})
+						if v.raw != nil {
+							b.apply(v.raw)
+						}
+						hops = append(hops, fmt.Sprintf("D:%d", cur.num))
+					case k <= 6: // time goes by
+						d := []int{1, 30, 89, 90, 600, 1799, 1800, 3599, 3600, 7200}[r.intn(10)]
+						e.mr.FastForward(time.Duration(d) * time.Second)
+						hops = append(hops, fmt.Sprintf("P:%d", d))
+					default: // requests
+						e.do(reqSpec{Target: "/app/use", Cookie: b.cookieHeader()})
+						e.do(reqSpec{Target: "/oauth2/userinfo", Cookie: b.cookieHeader()})
+						hops = append(hops, fmt.Sprintf("L:%d", cur.num))
+					}
+					if len(hops) == 0 {
+						continue
+					}
+					for _, t := range tickets {
+						got := "none"
+						v := e.do(reqSpec{Target: "/app/observe", Cookie: t.cookie})
+						for _, hit := range v.Hits {
+							got = fmt.Sprintf("some:%d", atNum(hit.Header.Get("X-Forwarded-Access-Token")))
+						}
+						ttl := "none"
+						if e.mr.Exists(t.key) {
+							if d := e.mr.TTL(t.key); d == 0 {
+								ttl = "inf"
+							} else {
+								ttl = fmt.Sprint(int(d / time.Second))
+							}
+						}
+						c.emit(got+" "+ttl, "ttlhist", is(exp), strings.Join(hops, ","), is(t.num))
+						c.count("c09:ttl-history-observation")
+						// independent of the model: nothing is ever stored with more than the configured lifetime, nothing without one
+						if exp > 0 && e.mr.Exists(t.key) {
+							if d := e.mr.TTL(t.key); d <= 0 || d > e.opts.Cookie.Expire {
+								c.violation("C09", "a server-side entry carries another lifetime than at most cookie-expire", map[string]interface{}{"ttl": d.String(), "cookie_expire": e.opts.Cookie.Expire.String(), "history": strings.Join(hops, ",")})
+							}
+						}
+					}
+				}
+				c.casen(fmt.Sprintf("c09e|ttl-history|%d|%d", exp, h), strings.Join(hops, ","))
+				c.count("c09:ttl-history")
+			}
+			e.close()
+		}
 		// A refresh RESETS the age: the refreshing request hands out a re-stamped credential with the full lifetime (Max-Age = cookie-expire),
 		// and the server-side entry it re-saves — under the same ticket — is stored with that lifetime again (a TTL, not "forever").
 		// The same after a second login of the same browser.
@@ -476,7 +599,7 @@ func init() {
 			}
 			e.close()
 		}
-		c.close([]string{"c09:entry-lifetime-on-use", "c09:lifetime-commands-refused", "c09:rewritten-issue-time", "c09:probe-before-any-callback", "c09:probe-after-callback-1", "c09:max-age", "c09:not-refreshable", "c09:max-age-split", "c09:expired-during-lock-wait",
+		c.close([]string{"c09:ttl-history", "c09:ttl-history-observation", "c09:entry-lifetime-on-use", "c09:lifetime-commands-refused", "c09:rewritten-issue-time", "c09:probe-before-any-callback", "c09:probe-after-callback-1", "c09:max-age", "c09:not-refreshable", "c09:max-age-split", "c09:expired-during-lock-wait",
 			"c09:issue-stamp", "c09:presented-again-after-expiry", "c09:refresh-transport-failure", "c09:refresh-restamp", "c09:second-login"})
 	})
 
